@@ -1,6 +1,7 @@
 """C13 — array updates hit exactly the addressed element exactly once (DESIGN §5 C13)."""
 from . import *
 from . import partition as P
+from . import containers as CT
 
 def run(tier, seed, replay=None):
     maxlen = 24 if tier == 'quick' else 60
@@ -22,7 +23,13 @@ def run(tier, seed, replay=None):
             k = (3, 2, 7)
             if k in V:
                 samples.append({'R': 3, 'rank': 2, 'len': 7, 'for_all after a[i] += i+1 (index=value)': V[k], 'index>local>global': I.get(k)})
-        return {'ok': msg is None and not fails, 'msg': msg, 'failures': fails, 'validated': nrows,
+        ct = CT.evaluate('C13', seed, tier)
+        fails += ct.get('failures', [])
+        if ct.get('msg') and msg is None:
+            msg = ct['msg']
+        nrows += ct.get('validated', 0)
+        hist_extra = ct.get('extra', {})
+        return {'extra': {'histories': ct.get('evaluations', 0), 'history_cases_checked_in_coq': ct.get('validated', 0), 'history_details': hist_extra}, 'ok': msg is None and not fails, 'msg': msg, 'failures': fails, 'validated': nrows,
                 'evaluations': n, 'nontrivial': nt, 'exhaustive': True,
                 'rule': 'every (R in %s, length 0..%d): one async update per element issued from rank i mod R, then for_all; non-trivial: length not divisible by R or < R' % (sizes, maxlen),
                 'samples': samples,
